@@ -174,6 +174,69 @@ def _int_lit(tok, where):
     return int(m.group(1))
 
 
+STDINT = {"INT16_MAX": 32767, "INT16_MIN": -32768, "UINT16_MAX": 65535, "INT32_MAX": 2147483647, "INT32_MIN": -2147483648,
+          "UINT32_MAX": 4294967295, "INT8_MAX": 127, "UINT8_MAX": 255}
+
+
+def _gen_re_emit(o, rel, t):
+    """re.c _yr_re_emit: the distance tests that precede every narrowing of a code distance, and the sizes of the
+    instructions, for Model/ReEmit.v"""
+    body = _function_body(rel, t, r"static\s+int\s+_yr_re_emit\s*\([^)]*\)\s*\{")
+    cases = {}
+    parts = re.split(r"case\s+(RE_NODE_\w+)\s*:", body)
+    for k in range(1, len(parts) - 1, 2):
+        cases[parts[k]] = parts[k + 1]
+    CHK = re.compile(r"if\s*\(\s*([\w.>-]+?)\s*-\s*([\w.>-]+?)\s*" + OPRE + r"\s*(\w+)\s*\)\s*return\s+(\w+)\s*;\s*"
+                     r"(?:[\w.>-]+\s*=\s*\(\s*(\w+)\s*\)\s*\(\s*([\w.>-]+?)\s*-\s*([\w.>-]+?)\s*\))?")
+    want = {   # case -> [(name, minuend, subtrahend, narrowed to)]
+        "RE_NODE_PLUS": [("re_plus_back", "instruction_ref.offset", "bookmark_1", "int16_t")],
+        "RE_NODE_STAR": [("re_star_back", "instruction_ref.offset", "bookmark_1", "int16_t"),
+                         ("re_star_fwd", "bookmark_1", "instruction_ref.offset", "int16_t")],
+        "RE_NODE_ALT": [("re_alt_split", "bookmark_1", "instruction_ref.offset", "int16_t"),
+                        ("re_alt_jump", "bookmark_1", "jmp_instruction_ref.offset", "int16_t")],
+        "RE_NODE_RANGE": [("re_range_rep_back", "bookmark_2", "bookmark_3", "int32_t"),
+                          ("re_range_rep_fwd", "bookmark_4", "bookmark_1", "int32_t"),
+                          ("re_range_split", "bookmark_2", "bookmark_1", "int16_t")],
+    }
+    o.comment("re.c _yr_re_emit: `if (A - B OP LIMIT) return ERROR_REGULAR_EXPRESSION_TOO_LARGE; x = (intN_t) (A - B)` "
+              "(A, B are uint32 arena offsets: a backward distance is tested as a wrapped unsigned value)")
+    for cs, lst in want.items():
+        if cs not in cases:
+            raise GenError("translator cannot parse re.c: no `case %s` in _yr_re_emit" % cs)
+        found = CHK.findall(cases[cs])
+        if len(found) != len(lst):
+            raise GenError("translator cannot parse re.c: case %s has %d distance tests, expected %d" % (cs, len(found), len(lst)))
+        for (name, a_, b_, ty), f in zip(lst, found):
+            fa, fb, op, lim, err, cast, ca, cb = f
+            if (fa, fb) != (a_, b_) or err != "ERROR_REGULAR_EXPRESSION_TOO_LARGE":
+                raise GenError("translator cannot parse re.c: case %s test `%s - %s` returns %s (expected %s - %s)" % (cs, fa, fb, err, a_, b_))
+            if lim not in STDINT:
+                raise GenError("translator cannot parse re.c: limit '%s' of the %s test is not a <stdint.h> constant" % (lim, name))
+            later = re.search(r"\(\s*%s\s*\)\s*\(\s*%s\s*-\s*%s\s*\)" % (ty, re.escape(a_), re.escape(b_)), cases[cs])
+            if ty == "int16_t" and (cast != ty or (ca, cb) != (a_, b_)) and not later:
+                raise GenError("translator cannot parse re.c: the distance of %s is not narrowed by `(%s) (%s - %s)` right after its test" % (name, ty, a_, b_))
+            o.op(name + "_op", op)
+            o.z(name + "_lim", STDINT[lim])
+    # instruction sizes
+    m = re.search(r"typedef\s+\w+\s+RE_SPLIT_ID_TYPE\s*;.*?RE_REPEAT_ANY_ARGS\s*;\s*#pragma\s+pack\s*\(\s*pop\s*\)", t, re.S)
+    if not m:
+        raise GenError("translator cannot parse re.c: RE_SPLIT_ID_TYPE / RE_REPEAT_ARGS / RE_REPEAT_ANY_ARGS definitions")
+    prog = ('#include <stdio.h>\n#include <stdint.h>\n#include <yara/re.h>\n' + m.group(0) + '\nint main(){'
+            'printf("%zu %zu %zu %zu\\n", sizeof(RE_SPLIT_ID_TYPE), sizeof(RE_REPEAT_ARGS), sizeof(RE_REPEAT_ANY_ARGS), sizeof(RE_CLASS));return 0;}')
+    out, err = gen._compile_run(prog)
+    if out is None:
+        raise GenError("translator cannot evaluate the instruction sizes of re.c: " + err[:300])
+    sid, rep, repany, cls = [int(x) for x in out.split()]
+    o.comment("sizes of the regexp instructions _yr_re_emit writes: opcode byte + arguments")
+    o.z("re_sz_split", 1 + sid + 2)
+    o.z("re_sz_jump", 1 + 2)
+    o.z("re_sz_literal", 1 + 1)
+    o.z("re_sz_any", 1)
+    o.z("re_sz_class", 1 + cls)
+    o.z("re_sz_repeat", 1 + rep)
+    o.z("re_sz_repeat_any", 1 + repany)
+
+
 @gen.register("GenLimits.v")
 def gen_limits():
     o = Out()
@@ -323,6 +386,7 @@ def gen_limits():
     rel = "re.c"
     t = _src(rel)
     body = _function_body(rel, t, r"int\s+_yr_emit_split\s*\([^)]*\)\s*\{")
+    _gen_re_emit(o, rel, t)
     o.comment("re.c _yr_emit_split: `if (emit_context->next_split_id OP RE_MAX_SPLIT_ID) return ERROR_REGULAR_EXPRESSION_TOO_COMPLEX` before next_split_id++")
     m = _one(rel, body, r"if\s*\(\s*emit_context->next_split_id\s*" + OPRE + r"\s*(\w+)\s*\)\s*return\s+(\w+)\s*;", "split id test")
     o.op("split_id_op", m.group(1))
